@@ -355,7 +355,7 @@ func runCli(r *hx.Rand, work string, nvar int, allRuns bool, o *Output) {
 				continue
 			}
 			used[key] = true
-			cmd := genCmd(r)
+			cmd := genCmd(r, true)
 			if cmd == "file-ignore" && r.Chance(40) && !used[f.name+":0"] {
 				at = 0 // conventional placement: first line of the file, above the package clause
 				used[f.name+":0"] = true
